@@ -91,6 +91,12 @@ class Pump(PumpFamily):
     name = "pump"
 
     def gen(self, rng, n):
+        # bodies around and far beyond the TLS record size and the pump's flush sizes: never half-written
+        big = [{"up": False, "mw": False, "handler": ["s", [20, "application/octet-stream", ["z", size]]], "app": [b"gemini://localhost/big\r\n".hex()],
+                "close_notify": False, "plaintext": None, "cutseed": size, "maxcuts": cuts, "stall": None, "cert": None, "post": []}
+               for size in (16384, 16385, 70000, 262144, 524288, 600000, 1100000, 2500000) for cuts in (0, 3)]
+        for c in self.share(big):
+            yield c
         for i in range(n):
             c = gen_pump_case(rng)
             if i % 12 == 0:   # bytes sent without TLS: never a Gemini response, never a handler
